@@ -92,6 +92,29 @@ func runC12(c *eng.Ctx) {
 		}
 	}
 	c.Expect("FIELDS-usage", 3*len(fields))
+	// a predicate over the counters of a DiskUsageCounts (an "is empty" / "is equal" test) looks at all of them: one that
+	// forgets a counter treats a delta that changes only that counter as no change
+	for _, fn := range P.SrcFuncs("weed/topology") {
+		read := map[string]bool{}
+		for _, in := range eng.Find(fn, func(in ssa.Instruction) bool { u, ok := in.(*ssa.UnOp); return ok && u.Op == token.MUL }) {
+			spec := eng.FieldSpec(in.(*ssa.UnOp))
+			if strings.HasPrefix(spec, "DiskUsageCounts.") {
+				read[strings.TrimPrefix(spec, "DiskUsageCounts.")] = true
+			}
+		}
+		res := fn.Signature.Results()
+		if len(read) < 2 || res.Len() != 1 || res.At(0).Type().String() != "bool" {
+			continue // reports and conversions legitimately show a subset; a yes/no answer about a usage must cover it all
+		}
+		var missing []string
+		for _, f := range fields {
+			if !read[f] {
+				missing = append(missing, f)
+			}
+		}
+		c.Touch(fn)
+		c.Ob("FIELDS-usage", eng.FuncName(fn)+" reads-whole-counter-set", len(missing) == 0, fn.Pos(), "a yes/no answer computed from usage counters consults all of them"+ifs(len(missing) > 0, "; missing: "+strings.Join(missing, ",")))
+	}
 
 	// ---------------------------------------------------------------- (2) DELTA
 	sink := eng.CallTo("topology.NodeImpl).UpAdjustDiskUsageDelta", "topology.Node).UpAdjustDiskUsageDelta")
@@ -479,6 +502,10 @@ func runC12(c *eng.Ctx) {
 		addc := eng.Find(fn, eng.PlainCallTo("topology.DiskUsageCounts).addDiskUsageCounts"))
 		up := eng.Find(fn, sink)
 		c.Ob("PAIR-usage", eng.FuncName(fn)+" adds-here", len(addc) == 1 && len(eng.CycleOf(addc[0].Block())) > 0, fn.Pos(), "every disk type of the delta is added to this node's counters")
+		// no exit before the delta was walked: every path to a return passes the iteration over the delta's disk types
+		iter := func(in ssa.Instruction) bool { _, ok := in.(*ssa.Next); return ok }
+		hitEarly, earlyPath := eng.Search(eng.Entry(fn), eng.IsReturn, eng.SearchOpt{Barrier: iter})
+		c.Ob("PAIR-usage", eng.FuncName(fn)+" no-early-exit", hitEarly == nil && len(eng.Find(fn, iter)) > 0, fn.Pos(), "every delta is applied: no exit is taken before the delta's disk types were walked"+pathNote(P, fn, hitEarly, earlyPath))
 		okUp := len(up) == 1 && eng.IsParamLike(eng.Arg(up[0].(ssa.CallInstruction), 0), "deltaDiskUsages") && eng.MentionsField(eng.RecvOf(up[0].(ssa.CallInstruction)), "NodeImpl.parent")
 		c.Ob("PAIR-usage", eng.FuncName(fn)+" forwards-to-parent", okUp, fn.Pos(), "the same delta is forwarded to the parent")
 		if okUp {
